@@ -9,6 +9,8 @@ qdump=1 so that the oracle sees the server-state callbacks and the library's own
 counters; idseq=1 so that probe copies can be told from user queries.  UDP histories also start
 queries from inside completion callbacks (oncb <T> send,...) and run search / getaddrinfo
 requests whose next candidate is started from the internal completion callback (names h<T>.x).
+A third of the UDP histories (retry chance 1) make socket() / connect() / sendto() fail for a probe
+copy or a user query (sim op fail), then let the retry delay pass and send fresh queries.
 """
 
 
@@ -94,7 +96,13 @@ def gen_case(rng, tier):
     if tries is not None:
         cfg.append("tries=%d" % tries)
     delay = 5000
-    if rng.random() > 0.25:
+    # probe liveness: a probe copy that fails synchronously (socket / connect / sendto error) must
+    # not leave the server marked "probe pending": after the retry delay it is probed again
+    syncfail = transport == "udp" and n >= 2 and rng.random() < 0.3
+    if syncfail:
+        delay = rng.choice([0, 100, 100, 5000])
+        cfg.append("failover=1,%d" % delay)
+    elif rng.random() > 0.25:
         chance = rng.choice([0, 1, 1, 1, 2, 3, 10])
         delay = rng.choice([0, 0, 100, 5000, 5000, 30000, 120000])
         cfg.append("failover=%d,%d" % (chance, delay))
@@ -118,7 +126,23 @@ def gen_case(rng, tier):
     # callback re-entrancy: a query started from inside a completion callback (sim op oncb), or the
     # next candidate of a search / getaddrinfo request (started from the internal completion
     # callback), is a fresh attempt made AFTER the success of the answering server was recorded
-    reentry = transport == "udp" and n >= 2 and rng.random() < 0.4
+    def fail_op():
+        call = rng.choice(["socket", "connect", "connect", "sendto"])
+        err = rng.choice(["ENETUNREACH", "ENETUNREACH", "ECONNREFUSED", "EHOSTUNREACH"] + (["EMFILE"] if call == "socket" else []))
+        # with no connection open, call 1 is the user's query and call 2 its probe copy
+        return "fail %s %d %s" % (call, rng.choice([2, 2, 2, 1]), err)
+    if syncfail:
+        # query 1 fails on its server (demoted) and is answered by another; all connections are
+        # closed again.  After the retry delay query 2 goes to a healthy server and spawns the probe,
+        # which fails while being sent; after the delay again, query 3 must be accompanied by a probe
+        k = rng.choice(["SERVFAIL", "REFUSED", "NOTIMP"])
+        ops += ["send 1 q1.example IN A rd", "rsp xl rcode=%s" % k, "proc", "rspall an=A:1.1.1.1", "proc",
+                "adv %d" % rng.choice([delay, delay + 1, 60000]), "proct", fail_op(),
+                "send 2 q2.example IN A rd", "rspall an=A:1.1.1.1", "proc",
+                "adv %d" % rng.choice([delay, delay, delay + 1, max(0, delay - 1), 60000]), "proct",
+                "send 3 q3.example IN A rd", "rspall an=A:1.1.1.1", "proc"]
+        tok = 3
+    reentry = not syncfail and transport == "udp" and n >= 2 and rng.random() < 0.4
     if reentry:
         # queries 1 and 2 in flight; 2 fails (once without rotation: the first server is demoted;
         # once on every server with rotation: all servers have one failure); then 1 is answered
@@ -144,6 +168,8 @@ def gen_case(rng, tier):
         if pending == 0:
             if r < 0.6:
                 tok += 1
+                if syncfail and rng.random() < 0.3:
+                    ops.append(fail_op())
                 if transport == "udp" and rng.random() < 0.2:
                     # its completion callback starts another query
                     ops.append("oncb %d send,%d,q%d.example,IN,A,rd" % (tok, 100 + tok, 100 + tok))
